@@ -13,6 +13,14 @@ CHECKS["C08"] = ("E1-enum", "exploration",
   "Bounded-exhaustive over operation sequences: every sequence of <=3 (thorough: 4 with --maxlen) store operations over 3 colliding keys, 2-3 values, ordinals {0,1,2} and delete_prefix, for every policy/value-type, from 3 pre-states, executed through the real host interface and Flush; every read at every ordinal compared with an independent reference model, and the delta list replayed on the pre-state.",
   "Trusts refmodel.Store as the meaning of the policies; numeric alphabet restricted to exactly representable values; ordinals <= 3.",
   "bounded exhaustive enumeration of operation sequences on the real store against a reference model", "3/C08")
+CHECKS["C02"] = ("E1-enum", "exploration",
+  "Bounded-exhaustive: every sequence of 4 (thorough 5) one-operation blocks and every 3-block sequence with a two-operation block, over 3 colliding keys and delete_prefix, for every policy/value type x every cut into segments x {full store in memory, full store saved+reloaded}; partials built through the real host interface, saved, reloaded and merged by the real Merge; result compared with the real sequential store and the reference model.",
+  "Trusts refmodel.Store; exactly representable numeric alphabet (float addition is not associative in general); in-memory dstore.",
+  "bounded exhaustive enumeration of block sequences x segment cuts on the real stores (differential + reference model)", "3/C02")
+CHECKS["C09"] = ("E1-enum", "exploration",
+  "Bounded-exhaustive: every chain of 2 blocks of <=2 operations (thorough: 3 ordinals, + 3-block chains) for every policy/value type; the log recorded by a real execution is replayed with Reset+ApplyOps on a second store in the same pre-state; deltas compared one by one, content, size, and for partial stores DeletedPrefixes and the result of save+load+merge onto non-empty bases.",
+  "Mirrors the cached branch of exec.RunModule (Reset + ApplyOps) instead of calling it; RunModule itself is driven by the whole-system checks.",
+  "bounded exhaustive enumeration of operation-log chains, differential replay-vs-execution on the real stores", "3/C09")
 PENDING = {}
 def main():
     checks = []
